@@ -1,0 +1,179 @@
+//go:build verif
+
+package main
+
+import (
+	"bufio"
+	"encoding/json"
+	"fmt"
+	"os"
+	"regexp"
+	"strconv"
+	"strings"
+	"time"
+
+	"github.com/arm-doe/sts"
+	"github.com/arm-doe/sts/log"
+	"github.com/arm-doe/sts/store"
+)
+
+// Line-protocol entry for the verification harness in /verif (build tag "verif" only,
+// active only when STS_VERIF_MAIN=scan).  One request per line on stdin:
+//
+//	conf <outdir> <cachedir> <hidden 0|1> <follow 0|1> <minage ns>
+//	     I <k> <regexp>*k  X <k> <regexp>*k  T <k> (<method> <regexp|~> <delete 0|1> <delay ns>)*k
+//
+// (every token %XX-escaped, "-" = empty string, "~" = no pattern).  The request is turned
+// into an sts.SourceConf, the REAL clientApp.init() runs on it, and the answer is one line
+// of JSON describing the file store and the client tags that init() configured.
+
+type verifScanTag struct {
+	Name   string `json:"name"`
+	Delete bool   `json:"delete"`
+	Delay  int64  `json:"delay"`
+}
+
+type verifScanAnswer struct {
+	Err     string         `json:"err"`
+	Root    string         `json:"root"`
+	MinAge  int64          `json:"minage"`
+	Hidden  bool           `json:"hidden"`
+	Follow  bool           `json:"follow"`
+	Include []string       `json:"include"`
+	Ignore  []string       `json:"ignore"`
+	Tags    []verifScanTag `json:"tags"`
+}
+
+// verifScanQuiet is a logger that keeps stdout clean for the line protocol.
+type verifScanQuiet struct{}
+
+func (verifScanQuiet) Debug(...interface{}) {}
+func (verifScanQuiet) Info(...interface{})  {}
+func (verifScanQuiet) Error(...interface{}) {}
+func (verifScanQuiet) Recent(int) []string  { return nil }
+
+func verifScanUnesc(s string) string {
+	if s == "-" {
+		return ""
+	}
+	var b []byte
+	for i := 0; i < len(s); i++ {
+		if s[i] == '%' && i+2 <= len(s)-1 {
+			if v, err := strconv.ParseUint(s[i+1:i+3], 16, 8); err == nil {
+				b = append(b, byte(v))
+				i += 2
+				continue
+			}
+		}
+		b = append(b, s[i])
+	}
+	return string(b)
+}
+
+func verifScanConf(tok []string) (ans verifScanAnswer) {
+	defer func() {
+		if r := recover(); r != nil {
+			ans = verifScanAnswer{Err: fmt.Sprint("panic: ", r)}
+		}
+	}()
+	pos := 0
+	next := func() string {
+		if pos >= len(tok) {
+			panic("short request")
+		}
+		pos++
+		return tok[pos-1]
+	}
+	num := func() int64 {
+		v, err := strconv.ParseInt(next(), 10, 64)
+		if err != nil {
+			panic(err)
+		}
+		return v
+	}
+	conf := &sts.SourceConf{
+		Name:    "verif",
+		Threads: 2,
+		Target:  &sts.TargetConf{Host: "localhost:1"},
+	}
+	app := &clientApp{conf: conf}
+	conf.OutDir = verifScanUnesc(next())
+	app.dirCache = verifScanUnesc(next())
+	conf.LogDir = app.dirCache
+	conf.IncludeHidden = num() != 0
+	app.dirOutFollow = num() != 0
+	conf.MinAge = time.Duration(num())
+	pats := func(marker string) (out []*regexp.Regexp) {
+		if next() != marker {
+			panic("expected " + marker)
+		}
+		for k := num(); k > 0; k-- {
+			out = append(out, regexp.MustCompile(verifScanUnesc(next())))
+		}
+		return
+	}
+	conf.Include = pats("I")
+	conf.Ignore = pats("X")
+	if next() != "T" {
+		panic("expected T")
+	}
+	for k := num(); k > 0; k-- {
+		t := &sts.TagConf{Method: verifScanUnesc(next())}
+		if p := next(); p != "~" {
+			t.Pattern = regexp.MustCompile(verifScanUnesc(p))
+		}
+		t.Delete = num() != 0
+		t.DeleteDelay = time.Duration(num())
+		conf.Tags = append(conf.Tags, t)
+	}
+	if pos != len(tok) {
+		panic("trailing tokens")
+	}
+	if err := app.init(); err != nil {
+		return verifScanAnswer{Err: err.Error()}
+	}
+	st, ok := app.broker.Conf.Store.(*store.Local)
+	if !ok {
+		return verifScanAnswer{Err: "store is not *store.Local"}
+	}
+	ans = verifScanAnswer{
+		Root:   st.Root,
+		MinAge: int64(st.MinAge),
+		Hidden: st.IncludeHidden,
+		Follow: st.FollowSymlinks,
+	}
+	for _, p := range st.Include {
+		ans.Include = append(ans.Include, p.String())
+	}
+	for _, p := range st.Ignore {
+		ans.Ignore = append(ans.Ignore, p.String())
+	}
+	for _, t := range app.broker.Conf.Tags {
+		ans.Tags = append(ans.Tags, verifScanTag{Name: t.Name, Delete: t.Delete, Delay: int64(t.DeleteDelay)})
+	}
+	return
+}
+
+func init() {
+	if os.Getenv("STS_VERIF_MAIN") != "scan" {
+		return
+	}
+	log.InitExternal(verifScanQuiet{})
+	in := bufio.NewScanner(os.Stdin)
+	in.Buffer(make([]byte, 1<<20), 1<<26)
+	out := bufio.NewWriter(os.Stdout)
+	for in.Scan() {
+		tok := strings.Fields(in.Text())
+		var ans verifScanAnswer
+		if len(tok) > 0 && tok[0] == "conf" {
+			ans = verifScanConf(tok[1:])
+		} else {
+			ans = verifScanAnswer{Err: "bad-op"}
+		}
+		b, _ := json.Marshal(ans)
+		out.Write(b)
+		out.WriteByte('\n')
+		out.Flush()
+	}
+	os.Exit(0)
+}
